@@ -62,18 +62,22 @@ MissingInput(tb, e) ==                                 \* the stream cannot supp
     \/ e.fn = "dens" /\ tb.z = <<>>
     \/ e.fn \in {"roc", "flat", "att", "clim", "speed"} /\ ~tb.hastime
 
-\* <<>> when the test produces no result (it raised), else << flags >>
+\* <<>> when the test produces no result (it raised), else << flags, admissible >>: where the rule of the test leaves a
+\* flag open (a spike next to a missing value), "admissible" holds every flag the rule allows and "flags" one of them
 RunResult(tb, e, S) ==
     IF e.fn = "boom" \/ MissingInput(tb, e) THEN <<>>
-    ELSE IF e.fn \in {"probe", "probe2"} THEN << [i \in 1..Cardinality(S) |-> GOOD] >>
+    ELSE IF e.fn \in {"probe", "probe2"} THEN << [i \in 1..Cardinality(S) |-> GOOD], [i \in 1..Cardinality(S) |-> {GOOD}] >>
     ELSE LET r == Rule(CallOn(tb, e, S), FALSE) IN
-         IF r.ok THEN << [i \in 1..Len(r.flags) |-> CHOOSE f \in r.flags[i] : TRUE] >> ELSE <<>>
+         IF r.ok THEN << [i \in 1..Len(r.flags) |-> CHOOSE f \in r.flags[i] : TRUE], r.flags >> ELSE <<>>
 
 MkYield(tb, e, w) ==
     LET S == Covered(tb, w)
         rr == RunResult(tb, e, S)
     IN  [win |-> w, stream |-> e.stream, fn |-> e.fn, subset |-> S,
-         ok |-> rr # <<>>, flags |-> IF rr = <<>> THEN <<>> ELSE rr[1]]
+         ok |-> rr # <<>>, flags |-> IF rr = <<>> THEN <<>> ELSE rr[1], adm |-> IF rr = <<>> THEN <<>> ELSE rr[2]]
+
+\* every flag of every yield is fixed by the rules
+Determined(ysq) == \A k \in 1..Len(ysq) : \A i \in 1..Len(ysq[k].adm) : Cardinality(ysq[k].adm[i]) = 1
 
 \* contexts with the same window (and region) are one group, in order of first appearance
 RECURSIVE DedupWins(_, _)
@@ -85,7 +89,8 @@ DedupWins(cfg, seen) ==
 EntriesOfWin(cfg, w) == FlattenSeq([k \in 1..Len(cfg) |-> IF cfg[k].win = w THEN cfg[k].entries ELSE <<>>])
 
 Yields(tb, cfg) ==
-    LET wins == DedupWins(cfg, {}) IN
+    \* a context none of whose entries becomes a call does not exist for the run: the groups are ordered by their first call
+    LET wins == DedupWins(SelectSeq(cfg, LAMBDA c : \E k \in 1..Len(c.entries) : Loadable(c.entries[k])), {}) IN
     FlattenSeq([g \in 1..Len(wins) |->
         LET es == SelectSeq(EntriesOfWin(cfg, wins[g]), LAMBDA e : Loadable(e) /\ HasStream(tb, e))
         IN  [k \in 1..Len(es) |-> MkYield(tb, es[k], wins[g])]])
